@@ -9,7 +9,7 @@ import pathlib_go as pg
 
 ASSUMPTIONS = [
     "'the same operation issued directly on the base filesystem': the twin run applies each operation to the very same base filesystem object (same layering) with the symlinked parent directories of the path resolved by the operating system (filepath.EvalSymlinks)",
-    "results are compared as error presence, error class and returned data; directory timestamps are exempt",
+    "results are compared as success/failure and, on success, returned data ('reports success or failure, returns the same data'); when both fail the error classes are not compared (BackupFS wraps errors of its backup step); directory timestamps are exempt",
     "the backup location exists (it is a precondition of the layering)",
 ]
 READONLY = ("stat", "lstat", "readlink", "read", "readdir")
@@ -45,9 +45,7 @@ def post(cases, impl):
             if not same:
                 out.append((c.id, "operation %d %s %s: through BackupFS %s, directly on the base %s" % (i, o[0], [enc(x) if isinstance(x, bytes) else x for x in o[1:]], ra, rb)))
                 break
-            if ra[0] != rb[0]:
-                # both fail, classes differ: reported, not a violation (the property names no class here)
-                pass
+            # (both fail with different classes: not a violation, the property names no class here)
             la, lb = base_lines(a, str(i + 1), c.cfg), base_lines(b, str(i + 1), c.cfg)
             if la != lb:
                 out.append((c.id, "after operation %d %s %s the base differs from the direct run: %s" % (i, o[0], [enc(x) if isinstance(x, bytes) else x for x in o[1:]], sorted(set(la) ^ set(lb))[:4])))
